@@ -61,12 +61,18 @@ func (m *Mutex) Lock() {
 		block()
 	}
 	m.locked = true
+	if cur != nil {
+		cur.hold(m)
+	}
 }
 func (m *Mutex) TryLock() bool {
 	if m.locked {
 		return false
 	}
 	m.locked = true
+	if cur != nil {
+		cur.hold(m)
+	}
 	return true
 }
 func (m *Mutex) Unlock() {
@@ -74,6 +80,9 @@ func (m *Mutex) Unlock() {
 		panic("sync: unlock of unlocked mutex")
 	}
 	m.locked = false
+	if cur != nil {
+		cur.release(m)
+	}
 	syncPoint()
 }
 
@@ -88,12 +97,18 @@ func (m *RWMutex) Lock() {
 		block()
 	}
 	m.writer = true
+	if cur != nil {
+		cur.hold(m)
+	}
 }
 func (m *RWMutex) Unlock() {
 	if !m.writer {
 		panic("sync: Unlock of unlocked RWMutex")
 	}
 	m.writer = false
+	if cur != nil {
+		cur.release(m)
+	}
 	syncPoint()
 }
 func (m *RWMutex) RLock() {
@@ -102,12 +117,18 @@ func (m *RWMutex) RLock() {
 		block()
 	}
 	m.readers++
+	if cur != nil {
+		cur.hold(m)
+	}
 }
 func (m *RWMutex) RUnlock() {
 	if m.readers <= 0 {
 		panic("sync: RUnlock of unlocked RWMutex")
 	}
 	m.readers--
+	if cur != nil {
+		cur.release(m)
+	}
 	syncPoint()
 }
 func (m *RWMutex) TryLock() bool {
@@ -131,6 +152,19 @@ type Once struct {
 
 func (o *Once) Do(f func()) {
 	syncPoint()
+	// the return of any Do call happens after the completion of f: model it
+	// as a lock that every task passing through Do holds from then on
+	if cur != nil {
+		held := false
+		for _, l := range cur.locks {
+			if l == any(o) {
+				held = true
+			}
+		}
+		if !held {
+			cur.hold(o)
+		}
+	}
 	if o.done {
 		return
 	}
